@@ -73,8 +73,13 @@ class Judge:
 
     def vec(self, law, cell, got, exp, scale, detail, gain=mpf(1)):
         """got/exp: object vectors (results of two call sequences) or RVs"""
-        g = got if isinstance(got, R.RV) else rv_of(got)[0]
-        e = exp if isinstance(exp, R.RV) else rv_of(exp)[0]
+        try:
+            g = got if isinstance(got, R.RV) else rv_of(got)[0]
+            e = exp if isinstance(exp, R.RV) else rv_of(exp)[0]
+        except R.NotRepresentable:
+            # the exact result (e.g. the zero vector in theta storage) is outside the representable domain
+            self.res.count("skip_result_not_representable")
+            return True
         err = vec_err(g, e, scale)
         d = dict(detail)
         if err > (MP_VIOLATE if self.mode.mp else F_TOL) * gain:
